@@ -92,8 +92,10 @@ Definition after_check1 (m : mode) (cp rq hd tl : Z) (ps : pstate) : pstate :=
 (* the 8 bytes at position p as an i64 *)
 Definition hdr64 (sl : list slot) (p : Z) : Z := make_header (pos_word sl p) (pos_word sl (p + 4)).
 
+(* the space one successful compare-and-set claims: an optional padding piece (ghost write number -1 - k)
+   and the record piece (ghost write number k), both still zero *)
 Definition claim_slots (tl padding rq owner sq : Z) : list slot :=
-  (if padding =? 0 then [] else [mkSlot tl padding 0 0 [] owner sq]) ++ [mkSlot (tl + padding) rq 0 0 [] owner sq].
+  (if padding =? 0 then [] else [mkSlot tl padding 0 0 [] owner (- 1 - sq)]) ++ [mkSlot (tl + padding) rq 0 0 [] owner sq].
 
 Definition pstep (m : mode) (R : ring) (tid : Z) (ps : pstate) : ring * pstate * option event :=
   let cp := r_cap R in
